@@ -27,11 +27,12 @@ theorem window_refines_ledger (fix : Bool) (t0 : Nat) (ops : List TOp) (h0 : 0 <
     (k : Key) (Iv now : Nat) (hnow : lastT t0 ops.reverse ≤ now) (hIv : Iv ≤ 10000) :
     obsWindow (run fix t0 ops) k Iv now = ledWindow fix ops.reverse k Iv now := by
   have sim := sim_runR fix t0 ops.reverse h0 hm
+  have hpos : 0 < now := lt_of_lt_of_le h0 (le_trans (t0_le_lastT t0 ops.reverse hm) hnow)
   unfold obsWindow ledWindow run
   cases k with
   | none =>
     simp only [nodeOf, Option.map]
-    rw [nodeOk_window sim.nodes.inb now Iv hnow (by simpa [sampleCountTotal, bucketLen] using hIv)]
+    rw [nodeOk_window sim.nodes.inb now Iv hnow hpos (by simpa [sampleCountTotal, bucketLen] using hIv)]
     rfl
   | some r =>
     simp only [nodeOf]
@@ -40,7 +41,7 @@ theorem window_refines_ledger (fix : Bool) (t0 : Nat) (ops : List TOp) (h0 : 0 <
     | some n =>
       have := sim.nodes.some_ r n hf
       simp only [Option.map, this.1, if_true]
-      rw [nodeOk_window this.2 now Iv hnow (by simpa [sampleCountTotal, bucketLen] using hIv)]
+      rw [nodeOk_window this.2 now Iv hnow hpos (by simpa [sampleCountTotal, bucketLen] using hIv)]
 
 /-- **the gauge** (`CurrentConcurrency()`) -/
 theorem conc_refines_ledger (fix : Bool) (t0 : Nat) (ops : List TOp) (h0 : 0 < t0) (hm : Mono t0 ops) (k : Key) :
